@@ -69,7 +69,21 @@ fn fd_table() -> Vec<Value> {
 fn sys_events(out: &mut Vec<String>) -> (bool, Vec<u32>) {
     let mut forked = false;
     let mut child_pids = vec![];
-    for r in slog::records() {
+    // The forked child may log before the parent's fork() has returned and been logged: put each
+    // fork record in front of the first record of the child it created.
+    let mut recs = slog::records();
+    let mut i = 0;
+    while i < recs.len() {
+        if recs[i].kind == slog::K_FORK && recs[i].ret > 0 {
+            let pid = recs[i].ret as u32;
+            if let Some(j) = recs[..i].iter().position(|r| r.proc_ == pid) {
+                let f = recs.remove(i);
+                recs.insert(j, f);
+            }
+        }
+        i += 1;
+    }
+    for r in recs {
         if r.kind == slog::K_FORK && r.ret > 0 {
             forked = true;
             child_pids.push(r.ret as u32);
@@ -108,6 +122,63 @@ fn children_state() -> &'static str {
         }
     } else {
         "none"
+    }
+}
+
+// ---- hang watchdog ---------------------------------------------------------------------------
+// A leaked pipe end shows up as a hang (create() waiting on the launch-status pipe, or a child
+// never seeing end-of-file).  A real-time alarm fires after WATCHDOG_S seconds of one scenario
+// (normal duration: milliseconds); the handler records which of our children hold which pipes on
+// descriptors above 2 -- the evidence the monitor judges -- and kills them so the run continues.
+const WATCHDOG_S: u32 = 20;
+static mut WATCHDOG: Vec<String> = Vec::new();
+
+fn my_children() -> Vec<i32> {
+    let mut v = vec![];
+    if let Ok(rd) = fs::read_dir("/proc") {
+        let me = std::process::id();
+        for e in rd.flatten() {
+            if let Some(pid) = e.file_name().to_str().and_then(|s| s.parse::<i32>().ok()) {
+                if let Ok(st) = fs::read_to_string(format!("/proc/{}/stat", pid)) {
+                    if let Some(rest) = st.rsplit(')').next() {
+                        let f: Vec<&str> = rest.split_whitespace().collect();
+                        if f.len() > 2 && f[1].parse::<u32>().ok() == Some(me) {
+                            v.push(pid);
+                        }
+                    }
+                }
+            }
+        }
+    }
+    v
+}
+
+extern "C" fn on_alarm(_s: i32) {
+    let mut holders = vec![];
+    for pid in my_children() {
+        let mut inos = vec![];
+        if let Ok(rd) = fs::read_dir(format!("/proc/{}/fd", pid)) {
+            for e in rd.flatten() {
+                let fd: i32 = e.file_name().to_str().and_then(|s| s.parse().ok()).unwrap_or(-1);
+                if fd > 2 {
+                    if let Ok(t) = fs::read_link(e.path()) {
+                        let t = t.to_string_lossy().into_owned();
+                        if let Some(x) = t.strip_prefix("pipe:[") {
+                            if let Ok(i) = x.trim_end_matches(']').parse::<i64>() {
+                                inos.push(i);
+                            }
+                        }
+                    }
+                }
+            }
+        }
+        holders.push(json!([pid, inos]));
+        unsafe {
+            simk::raw::kill(pid, 9);
+        }
+    }
+    unsafe {
+        (*std::ptr::addr_of_mut!(WATCHDOG)).push(json!({"e":"watchdog","holders":holders}).to_string());
     }
 }
 
@@ -258,13 +329,16 @@ fn compact_report(r: &Value) -> Value {
 }
 
 fn one_spawn(v: &Value, files: &mut Files, out: &mut Vec<String>, idx: usize) {
-    let argv: Vec<OsString> = v["argv"].as_array().unwrap().iter().map(|a| os(a.as_str().unwrap())).collect();
+    let mut argv: Vec<OsString> = v["argv"].as_array().unwrap().iter().map(|a| os(a.as_str().unwrap())).collect();
     let mut cfg = PopenConfig::default();
     cfg.stdin = files.redirection(v["stdin"].as_str().unwrap_or("none"), false, 0);
     cfg.stdout = files.redirection(v["stdout"].as_str().unwrap_or("none"), true, 1);
     cfg.stderr = files.redirection(v["stderr"].as_str().unwrap_or("none"), true, 2);
     cfg.detached = v["detached"].as_bool().unwrap_or(false);
     cfg.executable = v["exe"].as_str().map(os);
+    if v["exe_is_cmd"].as_bool().unwrap_or(false) {
+        cfg.executable = Some(argv[0].clone());
+    }
     cfg.env = v["env"].as_array().map(|l| {
         l.iter().map(|kv| (os(kv[0].as_str().unwrap()), os(kv[1].as_str().unwrap()))).collect()
     });
@@ -272,6 +346,9 @@ fn one_spawn(v: &Value, files: &mut Files, out: &mut Vec<String>, idx: usize) {
     cfg.setuid = v["setuid"].as_u64().map(|x| x as u32);
     cfg.setgid = v["setgid"].as_u64().map(|x| x as u32);
     cfg.setpgid = v["setpgid"].as_bool().unwrap_or(false);
+    if v["exe_is_cmd"].as_bool().unwrap_or(false) {
+        argv[0] = OsString::from("different-argv0");
+    }
     let passed: Vec<Value> = files.opened.drain(..).collect();
 
     let pre = fd_table();
@@ -286,8 +363,14 @@ fn one_spawn(v: &Value, files: &mut Files, out: &mut Vec<String>, idx: usize) {
     let pcwd: String = std::env::current_dir().unwrap().as_os_str().as_bytes().iter().map(|b| format!("{:02x}", b)).collect();
     out.push(json!({"e":"pre","i":idx,"fds":pre,"pass":passed,"penv":penv,"pcwd":pcwd}).to_string());
     slog::set_fault(fault_of(&v["fault"]));
-    slog::start();
+    slog::resume();
     let res = catch_unwind(AssertUnwindSafe(|| Popen::create(&argv, cfg)));
+    if unsafe { slog::IN_CHILD } != 0 {
+        // We are the forked child and came back out of Popen::create (it neither exec'ed nor
+        // _exit'ed, e.g. it panicked and unwound as a copy of the parent).  Record that and vanish.
+        slog::rec(slog::K_ESCAPE, 0, 0, 0, 0, 0, b"");
+        unsafe { simk::raw::exit_group(98) };
+    }
     slog::stop();
     slog::set_fault(None);
     let (forked, child_pids) = sys_events(out);
@@ -338,6 +421,30 @@ fn one_spawn(v: &Value, files: &mut Files, out: &mut Vec<String>, idx: usize) {
 }
 
 fn run_one(v: &Value, out: &mut Vec<String>) {
+    unsafe {
+        libc::signal(libc::SIGALRM, on_alarm as usize);
+        let tv = libc::itimerval {
+            it_interval: libc::timeval { tv_sec: 3, tv_usec: 0 },
+            it_value: libc::timeval { tv_sec: WATCHDOG_S as i64, tv_usec: 0 },
+        };
+        libc::setitimer(libc::ITIMER_REAL, &tv, std::ptr::null_mut());
+    }
+    run_one_inner(v, out);
+    unsafe {
+        let off: libc::itimerval = std::mem::zeroed();
+        libc::setitimer(libc::ITIMER_REAL, &off, std::ptr::null_mut());
+        let w = &mut *std::ptr::addr_of_mut!(WATCHDOG);
+        if !w.is_empty() {
+            // insert the watchdog observations before the post/end events
+            let at = out.len().saturating_sub(2);
+            for (k, l) in w.drain(..).enumerate() {
+                out.insert(at + k, l);
+            }
+        }
+    }
+}
+
+fn run_one_inner(v: &Value, out: &mut Vec<String>) {
     let _ = fs::create_dir_all(TMPD);
     let _ = fs::create_dir_all(VR);
     let mut files = Files { masters: Default::default(), next_off: 0, opened: vec![], cur_stream: 0 };
@@ -348,7 +455,11 @@ fn run_one(v: &Value, out: &mut Vec<String>) {
         "sin":v["stdin"].as_str().unwrap_or("none"),"sout":v["stdout"].as_str().unwrap_or("none"),
         "serr":v["stderr"].as_str().unwrap_or("none"),
         "detached":v["detached"].as_bool().unwrap_or(false),
-        "argv":v["argv"],"has_exe":v["exe"].is_string(),"exe":v["exe"].as_str().unwrap_or(""),
+        "argv":if v["exe_is_cmd"].as_bool().unwrap_or(false) {
+            let mut a = v["argv"].as_array().unwrap().clone();
+            a[0] = json!("646966666572656e742d6172677630");
+            Value::Array(a)
+        } else { v["argv"].clone() },"has_exe":v["exe"].is_string(),"exe":v["exe"].as_str().unwrap_or(""),
         "has_env":v["env"].is_array(),"env":if v["env"].is_array() {v["env"].clone()} else {json!([])},
         "has_cwd":v["cwd"].is_string(),"cwd":v["cwd"].as_str().unwrap_or(""),
         "setuid":v["setuid"].as_i64().unwrap_or(-1),"setgid":v["setgid"].as_i64().unwrap_or(-1),
@@ -358,9 +469,13 @@ fn run_one(v: &Value, out: &mut Vec<String>) {
         "fault_errno":v["fault"]["errno"].as_i64().unwrap_or(0),
         "nul":v["nul"].as_bool().unwrap_or(false),
         "expect_start":v["expect_start"].as_bool().unwrap_or(true),
-        "has_expexe":v["expexe"].is_string(),"expexe":v["expexe"].as_str().unwrap_or("")},
+        "has_expexe":v["expexe"].is_string(),"expexe":v["expexe"].as_str().unwrap_or(""),
+        "has_path":v["has_path"].as_bool().unwrap_or(false),
+        "path_entries":if v["path_entries"].is_array() {v["path_entries"].clone()} else {json!([])},
+        "cmd":v["cmd"].as_str().unwrap_or(""),"class":v["class"].as_str().unwrap_or("")},
         "base":fd_table()}).to_string());
 
+    slog::reset();
     // process-wide pre-state
     let old_path = std::env::var_os("PATH");
     if let Some(p) = v["path"].as_str() {
@@ -377,12 +492,16 @@ fn run_one(v: &Value, out: &mut Vec<String>) {
     let mut earlier: Vec<Popen> = vec![];
     for _ in 0..v["earlier"].as_u64().unwrap_or(0) {
         let vch = format!("{}/vchild", std::env::current_exe().unwrap().parent().unwrap().display());
+        out.push(json!({"e":"pre","i":-1,"fds":fd_table(),"pass":[],"penv":[],"pcwd":""}).to_string());
+        slog::resume();
         let p = Popen::create(
             &[vch.as_str(), "@script", "R", "x0"],
             PopenConfig { stdin: Redirection::Pipe, stdout: Redirection::Pipe, stderr: Redirection::Pipe, ..Default::default() },
-        )
-        .unwrap();
-        earlier.push(p);
+        );
+        slog::stop();
+        // their system calls are part of the trace: the pipes they create are library pipes too
+        sys_events(out);
+        earlier.push(p.unwrap());
     }
     let repeat = v["repeat"].as_u64().unwrap_or(1) as usize;
     let in_thread = v["thread"].as_bool().unwrap_or(false);
@@ -462,5 +581,8 @@ fn main() {
         }
     }
     outf.flush().unwrap();
-    eprintln!("spawn_replay: {} scenarios, interposed calls seen: {}", n, simk::hooks::SEEN.load(std::sync::atomic::Ordering::Relaxed));
+    let summary = format!("spawn_replay: {} scenarios, interposed calls seen: {}", n, simk::hooks::SEEN.load(std::sync::atomic::Ordering::Relaxed));
+    // (stderr may have been closed by the code under test: the summary also goes to a side file)
+    let _ = fs::write(format!("{}.summary", &args[2]), &summary);
+    eprintln!("{}", summary);
 }
